@@ -10,10 +10,12 @@ theorem step_call_inc {P : Prog} {rank : Nat → Nat} (hacy : Acyclic P rank) (f
     (s : Storage) (f a v : Nat) (h : TopInv P s)
     (hv : evalS fuel P s.srcs s.maps [] (nodeOf P f a) = .ok v) :
     TopInv P (step fuel P s (.call f a)).1 ∧
-      ((step fuel P s (.call f a)).2 = .dead ∨ (step fuel P s (.call f a)).2 = .val v) := by
+      ((step fuel P s (.call f a)).2 = .dead ∨ (step fuel P s (.call f a)).2 = .val v) ∧
+      (s.poisoned = false → ∃ r', alookup (step fuel P s (.call f a)).1.derived (nodeOf P f a) = some r' ∧
+        r'.tv = (step fuel P s (.call f a)).1.epoch) := by
   unfold step
   by_cases hp : s.poisoned = true
-  · rw [if_pos hp]; exact ⟨h, Or.inl rfl⟩
+  · rw [if_pos hp]; exact ⟨h, Or.inl rfl, fun h' => by rw [hp] at h'; cases h'⟩
   · rw [if_neg hp]
     obtain ⟨R, hbig⟩ := bigN_of_evalS fuel [] _ v hv
     have hinv : INV P s [] := h.toINV
@@ -22,7 +24,7 @@ theorem step_call_inc {P : Prog} {rank : Nat → Nat} (hacy : Acyclic P rank) (f
       simp [pushTop, h.stack]
     have hinv0 : INV P { s with topCalls := s.topCalls ++ [nodeOf P f a], pushes := s.pushes ++ [nodeOf P f a] } [] :=
       hinv.congr rfl rfl rfl rfl (fun fr hfr => by rw [show ({ s with topCalls := s.topCalls ++ [nodeOf P f a], pushes := s.pushes ++ [nodeOf P f a] } : Storage).stack = s.stack from rfl, h.stack] at hfr; cases hfr)
-    obtain ⟨s', b, tu, r', he, hinv', hev, hstk, hl, hval, _⟩ :=
+    obtain ⟨s', b, tu, r', he, hinv', hev, hstk, hl, hval, htv', _⟩ :=
       specU_all hacy fuel _ [] (nodeOf P f a) v R hinv0 (fun b hb => by cases hb) (hrank _) hbig
     have hst' : s'.stack = [] := hstk.trans h.stack
     have hexec : exec fuel P s (nodeOf P f a) = (s', .ok b) := by
@@ -31,7 +33,8 @@ theorem step_call_inc {P : Prog} {rank : Nat → Nat} (hacy : Acyclic P rank) (f
       rw [hp0, he]
       simp [regDep, hst']
     simp only [callVia, hexec, hl, hval]
-    exact ⟨(TopInv.ofINV hinv' hst').congr hst' rfl rfl rfl rfl, by simp⟩
+    exact ⟨(TopInv.ofINV hinv' hst').congr hst' rfl rfl rfl rfl, by simp,
+      fun _ => ⟨r', rfl, by rw [htv']; exact hev.epoch.symm⟩⟩
 
 theorem TopInv.step {P : Prog} {rank : Nat → Nat} (hacy : Acyclic P rank) (fuel : Nat) (hrank : ∀ g, rank g < fuel)
     {s : Storage} (hinv : TopInv P s) (op : Op)
@@ -135,7 +138,7 @@ theorem c01_inc {P : Prog} {rank : Nat → Nat} (hacy : Acyclic P rank) (fuel ca
     intro p f' a' rest' hp
     exact hclean p f' a' (rest' ++ Op.call f a :: rest) (by rw [hh, hp]; simp)
   obtain ⟨v, hv⟩ := hclean pre f a rest hh
-  rcases (step_call_inc hacy fuel hrank _ f a v hinv hv).2 with hd | hval
+  rcases (step_call_inc hacy fuel hrank _ f a v hinv hv).2.1 with hd | hval
   · exact Or.inl hd
   · right; rw [hval]; unfold evalScratch; rw [hv]; rfl
 
